@@ -30,7 +30,7 @@ NAMES = {0: "alpha", 1: "beta", 2: "gamma", 100: "runN", 101: "run7", 102: "log"
          104: "share", 105: "run01", 106: "flow.cylc"}
 NAME_IDX = {v: k for k, v in NAMES.items()}
 OUT = {"ok": 0, "named-exist": 1, "numbered-exist": 2, "nested": 3, "exists": 4, "source": 5, "reserved": 6,
-       "not-installed": 7}
+       "not-installed": 7, "bad-link": 8}
 FLOW = "[scheduling]\n    [[graph]]\n        R1 = a\n[runtime]\n    [[a]]\n"
 
 
@@ -40,7 +40,8 @@ def _classify_exc(e):
                       ("--run-name option not allowed", "numbered-exist"),
                       ("Nested run directories", "nested"), ("Nested install directories", "nested"),
                       ("already exists", "exists"), ("previous installations were from", "source"),
-                      ("is reserved", "reserved"), ("is not an installed workflow", "not-installed")):
+                      ("is reserved", "reserved"), ("is not an installed workflow", "not-installed"),
+                      ("Invalid symlink at", "bad-link")):
         if pat in s:
             return name
     return f"exc:{type(e).__name__}: {s[:160]}"
@@ -175,6 +176,8 @@ class InstallStream(Stream):
             {"ops": [I, ["install", 1], I, ["clean", ["runN"]], ["rm_run", 2], ["clean", ["runN"]], I], "kind": "mixed"},
             {"ops": [I, I, ["rm_run", 2], I, ["rm_runN"], I, C(1), C(2), C(3), C(3), ["install_named", 0, 0]],
              "kind": "mixed"},
+            # cylc clean <wf>/runN with a dangling runN is refused (get_symlink_dirs: "Invalid symlink")
+            {"ops": [I, ["rm_run", 1], ["clean", ["runN"]], I], "kind": "mixed"},
             {"ops": [["install_named", 0, 0], ["install_named", 0, 0], I, ["install_named", 101, 0],
                      ["install_named", 1, 1], ["reinstall", ["name", 1]], ["clean", ["name", 0]],
                      ["clean", ["name", 1]], ["install_flat", 0], I, ["install_named", 2, 0], ["reinstall", ["all"]],
